@@ -42,9 +42,21 @@ def cast_term(name):
     return [] if not name else [[3, name]]
 
 
+VIA_SPEC = [None]      # when set to a random.Random: some rules are built from their SPEC (Rule.from_spec) instead of
+                       # through the API - the same rule by C10; casts then come from the library's cast table
+
+
 def build_rule(rr):
     import valida
     import valida.datapath as dp
+
+    if VIA_SPEC[0] is not None and VIA_SPEC[0].random() < 0.3:
+        from harness.props import c17, grammardrv as gd
+        try:
+            if c17.spec_expressible(rr):
+                return valida.Rule.from_spec(gd.spell_rule(VIA_SPEC[0], rr))
+        except Exception:        # not expressible as a spec after all (what specs can say is C09 / C10's business)
+            pass
 
     path = dp.DataPath(*[gen.build_part(p) for p in rr["rparts"]])
     return valida.Rule(path=path, condition=build_cond(rr["cond"]), cast=cast_dict(rr.get("cast")))
@@ -257,7 +269,12 @@ def validate_obs(rules_rr, doc, shared=None, as_data=False):
             if out1 != "ok":
                 return out1, {"outcome": out1, "order": [], "writes": [], "unchanged": True}
         else:
-            schema = valida.Schema(rules)
+            # the rules may be handed over as any iterable: a list, a tuple, an iterator, a generator
+            giv = [lambda: rules, lambda: tuple(rules), lambda: iter(rules), lambda: (r for r in rules),
+                   lambda: list(rules), lambda: rules][h % 6]
+            out1, schema = outcome_of(lambda: valida.Schema(giv()))
+            if out1 != "ok":
+                return out1, {"outcome": out1, "order": [], "writes": [], "unchanged": True}
         if shared is not None:
             shared["rules"], shared["schema"] = rules, schema
     order = []
